@@ -13,6 +13,8 @@
 (*   buf[i] arbitrary byte tuple                                           *)
 (*   priv   "nil" or the W-byte scalar of the key (in [1, n))              *)
 (*   pub    "nil" or the uncompressed encoding of the key's point          *)
+(*   spriv  "nil" or the W-byte scalar d' of the BIP-340 private key       *)
+(*   spub   "nil" or the W-byte x-only BIP-340 public key                  *)
 (*                                                                         *)
 (* Step(st, ev) gives, for one call `ev` (operation name plus slot         *)
 (* indices, so that every receiver/argument ALIAS pattern is a distinct    *)
@@ -24,7 +26,7 @@
 (* received: env.LoadBuf / env.MutateBuf / env.MutateScalar /              *)
 (* env.MutatePoint / env.ForgetPoint never touch priv / pub.               *)
 (***************************************************************************)
-EXTENDS Sec1, FiniteSets
+EXTENDS Schnorr, FiniteSets
 
 Uninit == <<-1>>          \* a byte tuple that is no encoding: the slot holds a zero-value Point
 Nil    == <<-1>>          \* no key object
@@ -125,6 +127,35 @@ Step(st, ev) ==
          IF st.priv = Nil \/ st.pub = Nil THEN Panic(st)
          ELSE LET sh == PMul(OS2IP(st.priv), DecodeB(st.pub)[2]) IN
               IF IsInf(sh) THEN Err(st) ELSE Ok(SetBuf(st, ev.b, I2OSP(sh[1], W)))
+    (* ---- more point constructors / predicates ---- *)
+    [] ev.op = "pt.IsYOdd" ->
+         NeedValid(st, {ev.p}, LET a == PtOf(st, ev.p) IN OkR(st, IF IsInf(a) THEN -1 ELSE IF FIsOdd(a[2]) THEN 1 ELSE 0))   \* parity of the identity: unconstrained
+    [] ev.op = "pt.FromCoords" ->       \* NewPointFromCoords(x, y) with x || y taken from a 2W-byte buffer
+         LET b == st.buf[ev.b] IN
+         IF Len(b) # 2 * W THEN Panic(st)
+         ELSE LET x == OS2IP(SubSeq(b, 1, W))  y == OS2IP(SubSeq(b, W + 1, 2 * W)) IN
+              IF (x \prec P) /\ (y \prec P) /\ OnCurveXY(x, y) THEN Ok(SetPt(st, ev.v, <<x, y>>)) ELSE Err(st)
+    [] ev.op = "pt.Recover" ->          \* RecoverPoint(scalar slot, recovery id c)
+         LET d == RecoverPointD(ScOf(st, ev.s), ev.c) IN IF d[1] = "ok" THEN Ok(SetPt(st, ev.v, d[2])) ELSE Err(st)
+    (* ---- BIP-340 key objects ---- *)
+    [] ev.op = "skey.New" ->
+         LET b == st.buf[ev.b] IN
+         IF Len(b) = W /\ (OS2IP(b) \prec N) /\ ~BigEq(OS2IP(b), 0)
+         THEN Ok([st EXCEPT !.spriv = b, !.spub = I2OSP(PMulG(OS2IP(b))[1], W)]) ELSE Err(st)
+    [] ev.op = "skey.FromECDSA" ->
+         IF st.priv = Nil THEN Panic(st) ELSE Ok([st EXCEPT !.spriv = st.priv, !.spub = I2OSP(PMulG(OS2IP(st.priv))[1], W)])
+    [] ev.op = "skey.Bytes"  -> IF st.spriv = Nil THEN Panic(st) ELSE Ok(SetBuf(st, ev.b, st.spriv))
+    [] ev.op = "skey.Scalar" -> IF st.spriv = Nil THEN Panic(st) ELSE Ok([st EXCEPT !.sc[ev.s] = st.spriv])
+    [] ev.op = "spub.New" ->
+         LET b == st.buf[ev.b]  l == IF Len(b) = W THEN LiftXEven(OS2IP(b)) ELSE <<FALSE>> IN
+         IF l[1] THEN Ok([st EXCEPT !.spub = b, !.spriv = Nil]) ELSE Err(st)
+    [] ev.op = "spub.FromPoint" ->
+         NeedValid(st, {ev.p}, LET a == PtOf(st, ev.p) IN
+                               IF IsInf(a) THEN Err(st) ELSE Ok([st EXCEPT !.spub = I2OSP(a[1], W), !.spriv = Nil]))
+    [] ev.op = "spub.FromECDSA" ->
+         IF st.pub = Nil THEN Panic(st) ELSE Ok([st EXCEPT !.spub = I2OSP(DecodeB(st.pub)[2][1], W), !.spriv = Nil])
+    [] ev.op = "spub.Bytes" -> IF st.spub = Nil THEN Panic(st) ELSE Ok(SetBuf(st, ev.b, st.spub))
+    [] ev.op = "spub.Point" -> IF st.spub = Nil THEN Panic(st) ELSE Ok(SetPt(st, ev.v, LiftXEven(OS2IP(st.spub))[2]))   \* always the even-y point
     (* ---- the caller (environment) ---- *)
     [] ev.op \in {"env.LoadBuf", "env.MutateBuf"} -> Ok(SetBuf(st, ev.b, ev.content))
     [] ev.op = "env.MutateScalar" -> Ok(SetSc(st, ev.s, SAdd(ScOf(st, ev.s), 1)))          \* s.Add(s, 1) on the caller's object
@@ -138,15 +169,19 @@ StateOK(st) ==
   /\ st.priv # Nil => Len(st.priv) = W /\ (OS2IP(st.priv) \prec N) /\ ~BigEq(OS2IP(st.priv), 0)
                       /\ st.pub = EncPt(PMulG(OS2IP(st.priv)))                                                                  \* key pair consistent
   /\ st.pub # Nil => DecodeB(st.pub)[1] = "ok" /\ ~IsInf(DecodeB(st.pub)[2])                                                    \* never the identity
+  /\ st.spriv # Nil => Len(st.spriv) = W /\ (OS2IP(st.spriv) \prec N) /\ ~BigEq(OS2IP(st.spriv), 0)
+                       /\ st.spub = I2OSP(PMulG(OS2IP(st.spriv))[1], W)
+  /\ st.spub # Nil => Len(st.spub) = W /\ LiftXEven(OS2IP(st.spub))[1]
 
 IsEnv(ev)      == ev.op \in {"env.LoadBuf", "env.MutateBuf", "env.MutateScalar", "env.MutatePoint", "env.ForgetPoint"}
-IsKeyCtor(ev)  == ev.op \in {"key.NewPrivate", "key.NewPrivateFromScalar", "key.NewPublic", "key.NewPublicFromPoint"}
+IsKeyCtor(ev)  == ev.op \in {"key.NewPrivate", "key.NewPrivateFromScalar", "key.NewPublic", "key.NewPublicFromPoint",
+                              "skey.New", "skey.FromECDSA", "spub.New", "spub.FromPoint", "spub.FromECDSA"}
 
 (* a step is well behaved: failure => frame; caller actions and everything that is not a key constructor leave keys alone *)
 StepOK(st, ev) ==
   LET r == Step(st, ev) IN
   /\ r.kind \in {"ok", "err", "panic"}
   /\ (r.kind # "ok" => r.st = st)
-  /\ (~IsKeyCtor(ev) => r.st.priv = st.priv /\ r.st.pub = st.pub)
+  /\ (~IsKeyCtor(ev) => r.st.priv = st.priv /\ r.st.pub = st.pub /\ r.st.spriv = st.spriv /\ r.st.spub = st.spub)
   /\ StateOK(r.st)
 =============================================================================
